@@ -117,3 +117,45 @@ Proof.
   intros H. assert (H' : pack (mkFmt LE false its) vs = Some mb) by exact H.
   split; [apply (unpack_pack _ _ _ H')|apply (pack_length _ _ _ H')].
 Qed.
+
+(** * integer samples on FLOAT / DOUBLE rows
+    The simulated device puts Python ints on float channels; [num_value] hands
+    them to struct.pack as they are and the 'f' / 'd' code converts them
+    (float(z), for 'f' then narrowed to single).  So such a sample is not
+    refused: it is packed as the float it rounds to, and the client's format
+    reads that float's bit pattern back. *)
+Theorem double_row_int e z : Z.abs z < 2 ^ 1023 ->
+  exists b, Float.f64_of_int z = Some b /\
+            pack_one e Cd (VInt z) = Some (enc e 8 (Z.to_N b)) /\
+            unpack_one e Cd (enc e 8 (Z.to_N b)) = VF64 (Z.to_N b).
+Proof.
+  intros H. destruct (pack_d_int e z H) as (b & Hb & Hr & Hp & Hc).
+  exists b. split; [exact Hb|]. split; [exact Hp|].
+  rewrite (unpack_pack_one _ _ _ _ Hp). exact Hc.
+Qed.
+
+(** (the integers a double holds exactly; larger ones are first rounded to a double) *)
+Theorem float_row_int e z : Z.abs z <= 2 ^ 53 ->
+  exists b, Float.f32_encode z 0 = Some b /\
+            pack_one e Cf (VInt z) = Some (enc e 4 (Z.to_N b)) /\
+            unpack_one e Cf (enc e 4 (Z.to_N b)) = VF32 (Z.to_N b).
+Proof.
+  intros H. destruct (pack_f_int e z H) as (b & Hb & Hr & Hp & Hc).
+  exists b. split; [exact Hb|]. split; [exact Hp|].
+  rewrite (unpack_pack_one _ _ _ _ Hp). exact Hc.
+Qed.
+
+(** worked instance: ints 5, -1 on a FLOAT channel (type 10) and 5 on a DOUBLE
+    channel (type 11, one metadata byte), encoded by the device and decoded by
+    the client: 5.0f = 0x40a00000, -1.0f = 0xbf800000, 5.0 = 0x4014000000000000 *)
+Example float_rows_example :
+  stream_data_encode [] [mkESample 3 10 2 0 [EVInt 5; EVInt (-1)] []; mkESample 4 11 1 1 [EVInt 5] [7]] =
+  Ok (Some [0; 3; 0; 0; 160; 64; 0; 0; 128; 191; 4; 0; 0; 0; 0; 0; 0; 20; 64; 7]%N) /\
+  stream_decode [mkChanL 3 1 0 0; mkChanL 3 1 0 1; mkChanL 3 1 0 2; mkChanL 10 2 0 3; mkChanL 11 1 1 4] []
+    [0; 3; 0; 0; 160; 64; 0; 0; 128; 191; 4; 0; 0; 0; 0; 0; 0; 20; 64; 7]%N =
+  Ok (Some (0, [mkSample 3 1 2 0 [SVF32 1084227584; SVF32 3212836864] [];
+                mkSample 4 1 1 1 [SVF64 4617315517961601024] [SVInt 7]])).
+Proof. vm_compute. split; reflexivity. Qed.
+
+Print Assumptions double_row_int.
+Print Assumptions float_row_int.
